@@ -1,5 +1,6 @@
 import MoneroModel.Proofs.EdwardsLawful
 import MoneroModel.Proofs.KeysRef
+import MoneroModel.Model.SubAddr
 /-! Composed refinement (helpers of Props/C09–C11): `RefinesEd` (Proofs/EdwardsLawful.lean) is stated per primitive. Here the
 COMPOSED functions of Model/Crypto.lean that the compiled driver evaluates on `Drv.refOps` (extended coordinates on `Nat`) are
 shown to compute, on valid points and scalars below 2^260 (every 32-byte scalar), what the same functions compute on the lawful
@@ -96,6 +97,52 @@ theorem refines_subSpendPub (R : RefinesEd ops) (v : ℕ) (S : Ed.Pt) (hS : Vali
     obtain ⟨h2, e2⟩ := R.add S _ hS h1
     exact ⟨h2, by rw [e2, e1, (refines_subScalar R)]⟩
   · simp only [if_true]; exact ⟨hS, trivial⟩
+
+/-- `get_public_keys`: both components (the view key is `v•S'`, hence the bound on `v`) -/
+theorem refines_subPublicKeys (R : RefinesEd ops) (v : ℕ) (hv : v < 2 ^ 260) (S : Ed.Pt) (hS : Valid S) (i j : ℕ) :
+    ∃ (h1 : Valid (subPublicKeys ops v S i j).1) (h2 : Valid (subPublicKeys ops v S i j).2),
+      toPoint (subPublicKeys ops v S i j).1 h1 = (subPublicKeys edOps v (toPoint S hS) i j).1 ∧
+      toPoint (subPublicKeys ops v S i j).2 h2 = (subPublicKeys edOps v (toPoint S hS) i j).2 := by
+  unfold Monero.subPublicKeys
+  cases idxZero i j
+  · simp only [Bool.false_eq_true, if_false]
+    obtain ⟨h, e⟩ := refines_subSpendPub R v S hS i j
+    obtain ⟨h1, e1⟩ := R.smul v hv _ h
+    exact ⟨h1, h, by rw [e1, e], e⟩
+  · simp only [if_true]
+    obtain ⟨h1, e1⟩ := refines_pubOf R v hv
+    exact ⟨h1, hS, e1, trivial⟩
+
+/-- what the driver prints for `c11_sub_pub`: the encodings of the two keys -/
+theorem refines_enc_subPublicKeys (R : RefinesEd ops) (v : ℕ) (hv : v < 2 ^ 260) (S : Ed.Pt) (hS : Valid S) (i j : ℕ) :
+    ops.enc (subPublicKeys ops v S i j).1 = edOps.enc (subPublicKeys edOps v (toPoint S hS) i j).1 ∧
+    ops.enc (subPublicKeys ops v S i j).2 = edOps.enc (subPublicKeys edOps v (toPoint S hS) i j).2 := by
+  obtain ⟨h1, h2, e1, e2⟩ := refines_subPublicKeys R v hv S hS i j
+  exact ⟨by rw [R.enc _ h1, e1], by rw [R.enc _ h2, e2]⟩
+
+/-- `get_subaddress`: the address record (network, type, two 32-byte keys) is literally the same -/
+theorem refines_getSubaddress (R : RefinesEd ops) (v : ℕ) (hv : v < 2 ^ 260) (S : Ed.Pt) (hS : Valid S) (i j : ℕ)
+    (network : Option Net) : getSubaddress ops v S i j network = getSubaddress edOps v (toPoint S hS) i j network := by
+  obtain ⟨e1, e2⟩ := refines_enc_subPublicKeys R v hv S hS i j
+  unfold getSubaddress
+  simp only [e1, e2]
+
+/-- `KeyGenerator::check` -/
+theorem refines_keyGenCheck (R : RefinesEd ops) (D S K : Ed.Pt) (hD : Valid D) (hS : Valid S) (hK : Valid K) (n : ℕ) :
+    keyGenCheck ops D S n K = keyGenCheck edOps (toPoint D hD) (toPoint S hS) n (toPoint K hK) := by
+  obtain ⟨h, e⟩ := refines_oneTimeKey R D S hD hS n
+  unfold keyGenCheck
+  rw [R.enc K hK, R.enc _ h, e]
+
+/-! ### facts about the group that the C11 theorems assume of a general instance -/
+/-- the base point of Ed25519 has order exactly `l` -/
+theorem edOps_hord : ∀ k, k < edOps.l → k • edOps.base = 0 → k = 0 := by
+  intro k hk h0
+  have hd : Ed.l ∣ k := by rw [← addOrderOf_base]; exact addOrderOf_dvd_of_nsmul_eq_zero h0
+  exact Nat.eq_zero_of_dvd_of_lt hd hk
+theorem edOps_prime : Nat.Prime edOps.l := by rw [edOps_l]; exact factPrimeL.out
+theorem edOps_len : ∀ A : EdPoint, (edOps.enc A).length = 32 := by
+  intro A; rw [edOps_enc]; exact encodePt_length _
 
 /-! ### keys that arrive as bytes -/
 /-- `PublicKey::from_slice` accepts `b` (model of the library's acceptance test, Model/Keys.lean) iff the lawful instance
